@@ -7,6 +7,7 @@ pub mod extract;
 pub mod irdump;
 pub mod probe;
 pub mod tokpat;
+pub mod wgpuval;
 
 use serde_json::{json, Value};
 use std::io::{BufRead, BufWriter, Write};
@@ -276,6 +277,14 @@ fn main() {
                 1
             }
         },
+        // wgpu-core's shader interface validation as an oracle for the emitted layouts (see wgpuval.rs)
+        Some("wgpu") if args.len() == 4 => match wgpuval::wgpu(&args[2], &args[3]) {
+            Ok(()) => 0,
+            Err(e) => {
+                eprintln!("driver: {}", e);
+                1
+            }
+        },
         // debugging helpers: print the `out` term of a generated file / the `module` term of a shader
         Some("extract") if args.len() == 3 => match std::fs::read_to_string(&args[2]) {
             Ok(text) => match extract::extract(&text) {
@@ -310,7 +319,7 @@ fn main() {
             }
         },
         _ => {
-            eprintln!("usage: driver gen <cases.jsonl> <results.jsonl>\n       driver batch <cases.jsonl> <outdir> [--real] [--shim] [--rounds N]\n       driver extract <generated.rs>\n       driver ir <shader.wgsl>");
+            eprintln!("usage: driver gen <cases.jsonl> <results.jsonl>\n       driver batch <cases.jsonl> <outdir> [--real] [--shim] [--rounds N]\n       driver wgpu <cases.jsonl> <results.jsonl>\n       driver extract <generated.rs>\n       driver ir <shader.wgsl>");
             2
         }
     };
